@@ -70,7 +70,7 @@ def intercept(ctx):
     if sv and wa:
         ctx.check(g.every_path_to(g.nodes_of(wa[0]), g.nodes_of(sv[0])), wa[0], "the wrapper precedes the payload")
     mm = [n for n in t[0].body if isinstance(n, ast.If) and unparse(n.test) == "type(obj) is self.np.memmap"]
-    ctx.check(bool(mm) and "self.np.asanyarray(obj)" in unparse(mm[0].body[0]), mm[0] if mm else t[0], "memmaps are converted with asanyarray before dumping")
+    ctx.check(bool(mm) and any(unparse(s_) == "obj = self.np.asanyarray(obj)" for s_ in mm[0].body), mm[0] if mm else t[0], "memmaps are converted with asanyarray before dumping")
     ctx.check(any(isinstance(s, ast.Return) for s in t[0].body), t[0], "intercepted arrays do not also go through the default saver")
     u = F(ctx, "NumpyUnpickler.load_build")
     gu = cfg_of(u)
@@ -110,7 +110,7 @@ def meta(ctx):
     ctx.check(bool(am) and unparse(am[0].value) == "not self.buffered and (not array.dtype.hasobject)", am[0] if am else f, "allow_mmap = not buffered and not hasobject")
     tr = nodes_of_type(f, ast.Try)
     ok = tr and any(call_name(x) == "self.file_handle.tell" for x in calls_in(ast.Module(body=tr[0].body, type_ignores=[]))) and \
-        any(unparse(h.type) == "io.UnsupportedOperation" and "'numpy_array_alignment_bytes': None" in unparse(h.body[0]) for h in tr[0].handlers)
+        any(unparse(h.type) == "io.UnsupportedOperation" and any("'numpy_array_alignment_bytes': None" in unparse(s_) for s_ in h.body) for h in tr[0].handlers)
     ctx.check(bool(ok), tr[0] if tr else f, "alignment is disabled exactly when the target does not support tell()")
     for attr in params[:5] + ["numpy_array_alignment_bytes"]:
         st = assigns_to(init, "self." + attr)
@@ -250,8 +250,10 @@ def order(ctx):
     g = cfg_of(r)
     t = [n for n in nodes_of_type(r, ast.If) if unparse(n.test) == "self.order == 'F'"]
     ctx.need(t, "reader order branch not found")
-    b = [unparse(s) for s in t[0].body]
-    e = [unparse(s) for s in t[0].orelse]
+    from ..core import subseq
+    def touching(stmts):
+        return [unparse(s_) for s_ in stmts if any(isinstance(x, ast.Name) and x.id == "array" for x in ast.walk(s_))]
+    b, e = touching(t[0].body), touching(t[0].orelse)
     ctx.check(b == ["array.shape = self.shape[::-1]", "array = array.transpose()"], t[0], "F order: reversed shape then transpose", "F-order reconstruction is %s" % b)
     ctx.check(e == ["array.shape = self.shape"], t[0], "C order: shape as stored", "C-order reconstruction is %s" % e)
     m = F(ctx, W + ".read_mmap")
@@ -278,7 +280,7 @@ def byteorder(ctx):
     ctx.check(len(c) == 1 and [(unparse(t), pol) for (_, t, pol) in g.conditions_at(g.nodes_of(c[0]))] == [("ensure_native_byte_order", True)], c[0] if c else r, "byte order is normalised iff the flag is set")
     ld = F(ctx, "load")
     a = [n for n in nodes_of_type(ld, ast.If) if unparse(n.test) == "ensure_native_byte_order == 'auto'"]
-    ctx.check(bool(a) and unparse(a[0].body[0]) == "ensure_native_byte_order = mmap_mode is None", a[0] if a else ld, "'auto' = normalise unless memory-mapping")
+    ctx.check(bool(a) and any(unparse(s_) == "ensure_native_byte_order = mmap_mode is None" for s_ in a[0].body), a[0] if a else ld, "'auto' = normalise unless memory-mapping")
     rej = [n for n in nodes_of_type(ld, ast.If) if unparse(n.test) == "ensure_native_byte_order and mmap_mode is not None" and any(isinstance(s, ast.Raise) for s in n.body)]
     ctx.check(bool(rej), rej[0] if rej else ld, "True together with a mmap mode is rejected")
     for c in calls_in(ld):
@@ -374,7 +376,8 @@ def threshold(ctx):
     t = [n for n in nodes_of_type(f, ast.If) if "a.nbytes" in unparse(n.test)]
     ctx.need(t, "size threshold test not found")
     conj = sorted(unparse(v) for v in t[0].test.values) if isinstance(t[0].test, ast.BoolOp) and isinstance(t[0].test.op, ast.And) else [unparse(t[0].test)]
-    ctx.check(conj == sorted(["not a.dtype.hasobject", "self._max_nbytes is not None", "a.nbytes > self._max_nbytes"]), t[0], "memmap iff not hasobject and a threshold is set and nbytes > threshold", "memmapping is chosen under %s" % conj)
+    from ..core import same_items
+    ctx.check(same_items(conj, ["not a.dtype.hasobject", "self._max_nbytes is not None", "a.nbytes > self._max_nbytes"]), t[0], "memmap iff not hasobject and a threshold is set and nbytes > threshold", "memmapping is chosen under %s" % conj)
     els = [r for r in t[0].orelse for r in walk_local(r) if isinstance(r, ast.Return)]
     ctx.check(bool(els) and "dumps(a, protocol=HIGHEST_PROTOCOL)" in unparse(els[0].value), els[0] if els else t[0], "otherwise the array is pickled by value")
     d = [c for c in calls_in(t[0]) if call_name(c) == "dump"]
@@ -382,7 +385,7 @@ def threshold(ctx):
     if d:
         ctx.check(any(unparse(tt) == "not os.path.exists(filename)" and pol for (_, tt, pol) in g.conditions_at(g.nodes_of(d[0]))), d[0], "once per file")
     bm = [n for n in nodes_of_type(f, ast.If) if unparse(n.test) == "m is not None and isinstance(m, np.memmap)"]
-    ctx.check(bool(bm) and "_reduce_memmap_backed(a, m)" in unparse(bm[0].body[0]), bm[0] if bm else f, "arrays already backed by a memmap are passed by reference")
+    ctx.check(bool(bm) and any(isinstance(s_, ast.Return) and unparse(s_.value) == "_reduce_memmap_backed(a, m)" for s_ in bm[0].body), bm[0] if bm else f, "arrays already backed by a memmap are passed by reference")
     fl = [a for a in nodes_of_type(f, ast.Assign) if "filename" in stores_to(a)]
     ctx.check(bool(fl) and unparse(fl[0].value) == "os.path.join(self._temp_folder, basename)", fl[0] if fl else f, "the file lives in the call's temporary folder")
 
